@@ -361,7 +361,7 @@ impl Check for C08 {
     }
     fn buggify_menu(&self) -> Vec<&'static str> { vec!["pivot.spurious_retry"] }
     fn max_steps(&self) -> usize { 2_000_000 }
-    fn runs(&self, tier: &str) -> u64 { if tier == "quick" { 12_000 } else { 3_000_000 } }
+    fn runs(&self, tier: &str) -> u64 { if tier == "quick" { 30_000 } else { 1_500_000 } }
     fn gen_case(&self, rng: &mut Rng, _idx: u64, _tier: &str) -> Value {
         let ring = *rng.pick(&["Z", "Z", "Z", "Q", "F2", "F3", "ZH"]);
         let simplicial = rng.chance(1, 5) && ring != "ZH";
